@@ -54,6 +54,17 @@ def r1(ctx):
         before = statements_before(s, f)
         ctx.check("process_npdu:send#%d:after-decrement" % (i + 1), decs and decs[0] in before, where(m, s), "the send is not preceded by the hop count decrement on every path")
         ctx.check("process_npdu:send#%d:copy" % (i + 1), "deepcopy" in norm(s.args[0]) or norm(s.args[0]) == "newpdu", where(m, s), "each adapter must get its own copy")
+    # local processing consumes its input (decode pops the octets): while the packet can still be forwarded it must work on a copy
+    k = 0
+    for x in calls_in(f):
+        if isinstance(x.func, ast.Attribute) and x.func.attr == "decode" and x.args and x.lineno < (mk[0].lineno if mk else 10 ** 9):
+            k += 1
+            arg = x.args[0]
+            is_copy = isinstance(arg, ast.Call) and "copy" in norm(arg.func) and np in norm(arg)
+            ctx.check("process_npdu:local-decode#%d:on-a-copy" % k, is_copy, where(m, x),
+                      "%s consumes the octets of the received packet itself; the copy forwarded afterwards carries an empty payload" % norm(x))
+    if k < 2:
+        raise ShapeError("process_npdu: %d local decode calls found" % k)
     ind = c.methods["indication"]
     st = [s for t, s in stores_in(ind) if norm(t).endswith(".npduHopCount")]
     ok = len(st) == 1 and prog.try_const(m, st[0].value) == 255 and not [x for x in facts_at(st[0]) if x.origin == "arm"]
@@ -109,19 +120,39 @@ def r2(ctx):
     h = nse.methods["WhoIsRouterToNetwork"]
     a = h.args.args[1].arg
 
-    def not_arrival(node):
+    def not_arrival(node, via=None):
+        """is node dominated by an identity test that rules out the arrival adapter - for the given expressions `via`
+        (the adapter through which the answered network is reached) when stated"""
         for at_, pol in atoms_of_facts(facts_at(node)):
             if isinstance(at_, ast.Compare) and len(at_.ops) == 1 and isinstance(at_.ops[0], (ast.Is, ast.IsNot)):
                 sides = [norm(at_.left), norm(at_.comparators[0])]
                 if a in sides and (isinstance(at_.ops[0], ast.Is) != pol):
-                    return True
+                    other = sides[1] if sides[0] == a else sides[0]
+                    if via is None or other in via:
+                        return True
         return False
+
+    def reached_through(node):
+        """expressions naming the adapter through which the network of this answer is reached, from the dominating facts:
+        `d in sap.adapters` -> sap.adapters[d];  a truthy lookup result assigned in a loop over the adapters -> that loop's adapter variable"""
+        via = set()
+        for at_, pol in atoms_of_facts(facts_at(node)):
+            if pol and isinstance(at_, ast.Compare) and len(at_.ops) == 1 and isinstance(at_.ops[0], ast.In) and norm(at_.comparators[0]).endswith(".adapters"):
+                d_, mp = norm(at_.left), norm(at_.comparators[0])
+                via |= {"%s[%s]" % (mp, d_), "%s.get(%s)" % (mp, d_), "%s.get(%s, None)" % (mp, d_)}
+            if pol and isinstance(at_, ast.Name):
+                for lp in [l for l in walk_shallow(h) if isinstance(l, ast.For) and "adapters" in norm(l.iter)]:
+                    if any(isinstance(st, ast.Assign) and norm(st.targets[0]) == at_.id for st in ast.walk(lp)):
+                        tg = lp.target.elts[-1] if isinstance(lp.target, ast.Tuple) else lp.target
+                        via.add(norm(tg))
+        return via
     k = 0
     for x in calls_in(h):
         if norm(x.func) == "self.response" and x.args and norm(x.args[0]) == a:
             k += 1
-            ok = not_arrival(x)
-            if not ok:
+            via = reached_through(x)
+            ok = bool(via) and not_arrival(x, via)
+            if not ok and not via:
                 # the answer lists networks collected in a loop: every collected network must be guarded instead
                 ctor = None
                 blk = getattr(enclosing_stmt(x), "_parent", None)
@@ -335,8 +366,8 @@ def r6(ctx):
                   "router_info": known, "net_list is None": True})
         got = outcomes(e)
         if pending:
-            want_ok = all(":parked" in g and "send" not in g and "who-is" not in g for g in got) and bool(got)
-            desc = "appended to the packets already parked for that network (no second Who-Is-Router, nothing sent)"
+            want_ok = all(":parked" in g and "send" not in g and "who-is" not in g and "dadr=apdu.pduDestination" in g and g.endswith("dest=None") for g in got) and bool(got)
+            desc = "appended, already addressed (DADR = final destination, link destination cleared), to the packets parked for that network (no second Who-Is-Router, nothing sent)"
         elif known:
             want_ok = all(g.startswith("send:snet_adapter.process_npdu") and "dadr=apdu.pduDestination" in g and "dest=router_info.address" in g and ":parked" not in g for g in got) and bool(got)
             desc = "sent to the router the cache names, with DADR = final destination"
@@ -369,8 +400,9 @@ def r6(ctx):
     ctx.check("NSE.IAmRouterToNetwork:releases-parked", ok, where(m, h), "for each announced network with parked packets: forget the parking entry and send every parked packet to the announcing router on the arrival adapter")
 
 
-@rule("C06.R7", "what a router forwards by is coherent: the path index and the router map of the routing cache move together (a learned destination is reachable, a displaced one is gone)", floor=10, engines="E1 (shared with C19.R2 / C19.R3)")
+@rule("C06.R7", "what a router forwards by is coherent: the path index and the router map of the routing cache move together (a learned destination is reachable, a displaced one is gone) and return paths are learned under the arrival network", floor=10, engines="E1 (shared with C19.R2 / R3 / R5)")
 def r7(ctx):
     from . import c19
     c19.r2(ctx)
     c19.r3(ctx)
+    c19.r5(ctx)
